@@ -31,15 +31,32 @@ from .. import core, lean
 ID = "C14"
 MOD = "harness.props.c14"
 T = "MetadorModel.C14."
+B = "MetadorModel.Bridge.PartialMerge."
 LEAN = dict(
-    modules=["MetadorModel.Props.C14"],
+    modules=["MetadorModel.Props.C14", "MetadorModel.Bridge.PartialMerge"],
     theorems=[T + n for n in [
         "merge_empty_left", "merge_empty_right", "merge_assoc", "merge_list_concat", "merge_set_union",
         "merge_nested", "no_value_dropped", "conflict_raises", "later_wins", "from_to_partial",
         "legacy_or_drops_falsy", "merge_empty_left'", "merge_assoc_nested", "no_value_dropped_strict",
-        "conflict_is_value_error", "get_partial_src", "get_partial_src_run", "get_partial_cached"]],
+        "conflict_is_value_error", "get_partial_src", "get_partial_src_run", "get_partial_cached"]]
+    # translated tie: Gen/PartialMerge.lean is regenerated from `PartialModel._update_field` / `merge_with` of the
+    # source on every run (harness/translate_c14.py); these theorems say it equals the model (Model/Partial.lean)
+    + [B + n for n in ["gen_update_field", "gen_update_field_merge", "gen_merge_with", "gen_no_recursion_error"]],
     drivers=["drv_par"],
 )
+
+
+def translate(ctx):
+    """regenerate Gen/PartialMerge.lean from the current source of `PartialModel._update_field` and
+    `PartialModel.merge_with` (schema/partial.py)"""
+    from .. import translate_c14
+    try:
+        return translate_c14.write(lean)
+    except Exception as e:  # noqa: BLE001
+        # leave no text of an earlier run (possibly of another tree) behind: the bridge module then fails to
+        # build for this reason and not for a stale one
+        translate_c14.write_stub(lean, "%s: %s" % (type(e).__name__, e))
+        raise
 
 SRCS = ["dict", "obj", "json", "yaml", "ctor", "construct", "complete"]
 
@@ -1130,6 +1147,8 @@ def run(ctx):
                 "qualname and different field sets, also `class X(X)`; partial of a definition created before or after the next definition), triples and "
                 "round trips on every definition, and the source class of every partial class (get_partial) compared with the factory model. "
                 "Non-trivial = tagged: falsy leaf present, nested/deep leaf, conflict, later-wins, non-dict source, harvest fold.")
+    ctx.trusted.append("harness/translate_c14.py (Python ast -> Lean) + value dictionary Py/PartialPy.lean for PartialModel._update_field and "
+                       "PartialModel.merge_with; bridge theorems Bridge/PartialMerge.lean re-checked on every run")
     ctx.assumptions += [
         "model classes are single-inheritance chains of names; issubclass on partial classes = prefix test on the chains of their source classes",
         "pydantic re-validation in the cast-down branch (`to_partial` of a parent-class value into the child partial) is the identity on field values (no child narrows a parent field type in the generated families); the ValidationError fall-through of `_update_field` is not modelled",
